@@ -1286,4 +1286,98 @@ theorem InvO.preserved : Preserved Act.noPostpone True InvO where
 theorem InvO.init (b : Nat) : InvO (Machine.init ListQ.impl b) := by
   constructor <;> simp [Machine.init, ListQ.impl]
 
+/-! ## Part 7: more transfer helpers -/
+
+/-- every record a per-listener pass adds is a delivery to that listener -/
+theorem processLoopL_lis (l : Nat) (t : Int) : ∀ (fuel : Nat) (s : SState),
+    ∃ new, (processLoopL ListQ.impl l fuel t s).h.log = new ++ s.h.log ∧
+      ∀ d ∈ new, d.passT = t ∧ d.glob = false ∧ d.ev.lis = l
+  | 0, s => ⟨[], rfl, by simp⟩
+  | fuel + 1, s => by
+    simp only [processLoopL]
+    have e2 : ListQ.impl.popDueOf s.q l t = ListQ.popDueOfL s.q l t := rfl
+    rw [e2]
+    cases hq : ListQ.popDueOfL s.q l t with
+    | none => exact ⟨[], rfl, by simp⟩
+    | some x =>
+      obtain ⟨e, q'⟩ := x
+      obtain ⟨_, _, _, _, h3, _, _⟩ := popDueOfL_some hq
+      simp only
+      obtain ⟨new, h1, h2⟩ := processLoopL_lis l t fuel (runHandler ListQ.impl
+        { q := q', h := { s.h with log := ⟨e, t, s.h.now, ListQ.impl.toList q', false⟩ :: s.h.log } } e)
+      refine ⟨new ++ [⟨e, t, s.h.now, ListQ.impl.toList q', false⟩], ?_, ?_⟩
+      · rw [h1]; unfold runHandler; rw [log_foldl]; simp
+      · intro d hd
+        rcases List.mem_append.1 hd with h4 | h4
+        · exact h2 d h4
+        · simp at h4; subst h4; exact ⟨rfl, rfl, h3⟩
+
+/-- shared shape of `PostponeEvent` and `PostponeAllEvents` -/
+theorem postpone_transfer {s s' : State} {a : Act} {l d : Nat} {p : Ev → Bool} (h : Reachable s)
+    (hs : step s (.act a) = some s')
+    (hl : ∀ hh : Host, Act.legalTop hh a = decide (l ∈ hh.alive))
+    (ha : ∀ ss : SState, l ∈ ss.h.alive → applyAct ListQ.impl false ss a = postponeBy ListQ.impl ss p d) :
+    match (pending s).find? p with
+    | none => pending s' = pending s ∧ s'.h = s.h
+    | some e =>
+      pending s' = ListQ.insL ((pending s).erase e) { e with due := e.due + (d : Int), ord := s.h.nextOrd } ∧
+      s'.h = { s.h with nextOrd := s.h.nextOrd + 1, postponed := e :: s.h.postponed,
+                        posted := { e with due := e.due + (d : Int), ord := s.h.nextOrd } :: s.h.posted } := by
+  obtain ⟨ss, ss', hinv, hrel, hstep, hrel', _⟩ := step_transfer h hs
+  simp only [Machine.step] at hstep
+  split at hstep
+  · rename_i hlt
+    have hal : l ∈ ss.h.alive := by rw [hl] at hlt; simpa using hlt
+    cases hstep
+    rw [ha ss hal] at hrel'
+    unfold Machine.postponeBy at hrel'
+    have e2 : ListQ.impl.postpone ss.q p d ss.h.nextOrd = some (ListQ.postponeL ss.q p d ss.h.nextOrd) := rfl
+    rw [e2, postponeL_eq_insL (Int.ofNat_nonneg d) (hinv.sorted.imp lt_due_le)] at hrel'
+    simp only [pending]
+    rw [hrel.1.toList, hrel.2]
+    cases hf : ss.q.find? p with
+    | none =>
+      rw [hf] at hrel'
+      exact ⟨hrel'.1.toList, hrel'.2⟩
+    | some e =>
+      rw [hf] at hrel'
+      exact ⟨hrel'.1.toList, hrel'.2⟩
+  · cases hstep
+
+/-- what became of an event that was pending before some steps and is not pending after them -/
+theorem gone_transfer {s s' : State} {e : Ev} {new : List Delivery} (h : Reachable s) (h' : Reachable s')
+    (hg : Grows s.h s'.h) (hlog : s'.h.log = new ++ s.h.log) (he : e ∈ pending s) (hnp : e ∉ pending s') :
+    (∃ d ∈ new, d.ev = e) ∨ e ∈ s'.h.cancelled ∨ e ∈ s'.h.postponed := by
+  obtain ⟨ss, hr, hrel⟩ := reachable_spec h
+  obtain ⟨ss', hr', hrel'⟩ := reachable_spec h'
+  have hi := hr.inv
+  have hi' := hr'.inv
+  have heq : e ∈ ss.q := by rw [← hrel.1.toList]; exact he
+  have hposted : e ∈ ss'.h.posted := by
+    rw [← hrel'.2]; apply hg.2.1; rw [hrel.2]; exact hi.live_posted (InvS.q_live heq)
+  have hmem := hi'.ledger.mem_iff.2 hposted
+  simp only [live, List.mem_append, List.mem_map] at hmem
+  rcases hmem with hp | (⟨d, hd, hde⟩ | hc) | hq
+  · exact Or.inr (Or.inr (by rw [hrel'.2]; exact hp))
+  · left
+    rw [← hrel'.2, hlog] at hd
+    rcases List.mem_append.1 hd with h1 | h1
+    · exact ⟨d, h1, hde⟩
+    · -- already delivered before, yet pending before: two live versions with one stamp
+      exfalso
+      rw [hrel.2] at h1
+      have hnd : (ss.h.postponed ++ live ss).Nodup := by
+        have := hi.postedSorted
+        have hnd : (ss.h.posted.map (·.ord)).Nodup := by
+          rw [List.Nodup, List.pairwise_map]; exact this.imp (fun {a b} hab => by omega)
+        have := (hi.ledger.map (·.ord)).nodup_iff.2 hnd
+        exact List.Pairwise.of_map (·.ord) (fun a b hab e => hab (by rw [e])) this
+      rw [List.nodup_append] at hnd
+      have hl := hnd.2.1
+      unfold live at hl
+      rw [List.nodup_append] at hl
+      exact hl.2.2 e (List.mem_append_left _ (List.mem_map.2 ⟨d, h1, hde⟩)) e heq rfl
+  · exact Or.inr (Or.inl (by rw [hrel'.2]; exact hc))
+  · exact absurd (by show e ∈ LQ.toList s'.q; rw [hrel'.1.toList]; exact hq) hnp
+
 end Morfuse.EventQueue
